@@ -558,7 +558,17 @@ class Writer(GenericWriter):
             self.validate_fn(
                 record, self.schema, self._named_schemas, "", True, self.options
             )
-        write_data(self.io, record, self.schema, self._named_schemas, "", self.options)
+        position = self.io._fo.tell()
+        try:
+            write_data(
+                self.io, record, self.schema, self._named_schemas, "", self.options
+            )
+        except BaseException:
+            # A record that fails part way through must not leave its first
+            # bytes in the pending block
+            self.io._fo.seek(position, SEEK_SET)
+            self.io._fo.truncate(position)
+            raise
         self.block_count += 1
         if self.io._fo.tell() >= self.sync_interval:
             self.dump()
